@@ -147,3 +147,43 @@ Proof.
   - apply small_lt_usize_max. lia.
   - lia.
 Qed.
+
+(** CAPSTONE: the translated source refines the tape Spec (D-tie composed with [step_refines]): in every Model state related to a Spec
+    state, running the function translated from the Rust source answers what the Spec answers and leaves the cells, indices,
+    publication, clone identities and ledger of a state again related to the Spec's next state *)
+Require MRB.Proofs.Refine MRB.Proofs.DataTieSpec.
+Theorem DT_source_refines_spec_push : forall m a, Rel m a -> mlen m + mlen m < usize_max -> forall v src out, a_attached P a = true ->
+  exists r d, drun (d_push (denv_of P m src) v) (view P m out) = Some (r, d) /\
+    let '(a', (o, evs)) := sstep a (Push v) in
+    (match r, o with Ok _, OOk => True | Err x, OErr y => x = y /\ x = v | _, _ => False end) /\
+    exists m', Rel m' a' /\ agrees P m' (match r with Ok _ => [tP (pub m')] | Err _ => [] end) evs d.
+Proof. exact DataTieSpec.push_source_refines_spec. Qed.
+Print Assumptions DT_source_refines_spec_push.
+
+Theorem DT_source_refines_spec_pop : forall m a, Rel m a -> mlen m + mlen m < usize_max -> forall src out, a_attached C a = true ->
+  exists r d, drun (d_pop (denv_of C m src)) (view C m out) = Some (r, d) /\
+    let '(a', (o, evs)) := sstep a Pop in
+    (match r, o with Some v, OVal v' => v = v' | None, ONone => True | _, _ => False end) /\
+    exists m', Rel m' a' /\ agrees C m' (match r with Some _ => [tC (pub m')] | None => [] end) evs d.
+Proof. exact DataTieSpec.pop_source_refines_spec. Qed.
+Print Assumptions DT_source_refines_spec_pop.
+
+Theorem DT_source_refines_spec_push_slice : forall m a, Rel m a -> mlen m + mlen m < usize_max -> forall vs out, a_attached P a = true ->
+  exists r d, drun (d_push_slice_clone_init (denv_of P m vs) (src_sl (denv_of P m vs))) (view P m out) = Some (r, d) /\
+    let '(a', (o, evs)) := sstep a (PushSliceCloneInit vs) in
+    (match r, o with Some _, OOk => True | None, ONone => True | _, _ => False end) /\
+    exists m' evs0, Rel m' a' /\ agrees P m' (match r with Some _ => [tP (pub m')] | None => [] end) evs0 d /\ evs0 = evs.
+Proof. exact DataTieSpec.push_slice_clone_init_source_refines_spec. Qed.
+Print Assumptions DT_source_refines_spec_push_slice.
+
+Theorem DT_source_refines_spec_slices : forall m a, Rel m a -> mlen m + mlen m < usize_max -> forall k n src out, a_usable k a = true ->
+  exists r d, drun (d_get_workable_slice_exact (denv_of k m src) n) (view k m out) = Some (r, d) /\
+    let '(a', (o, _)) := sstep a (GetExact k n) in
+    (match r, o with
+     | Some (s1, s2), OSlices i h t => s_off s1 = i /\ h = sub (slots m) (s_off s1) (s_len s1) /\ t = sub (slots m) (s_off s2) (s_len s2) /\ s_len s1 + s_len s2 = n
+     | None, ONone => True
+     | _, _ => False
+     end) /\
+    exists m', Rel m' a' /\ agrees k m' [] [] d.
+Proof. exact DataTieSpec.slice_exact_source_refines_spec. Qed.
+Print Assumptions DT_source_refines_spec_slices.
